@@ -100,7 +100,7 @@ static JV interpret(const Plan &p, const ChildOut &co) {
 			break;
 		}
 	}
-	if (detail.empty()) { detail = e.substr(0, 3000); }
+	if (detail.empty()) { detail = ascii_safe(e.substr(0, 3000)); }
 	j.set("violated", JV::boolean(true));
 	j.set("prop", JV::str(memprop));
 	j.set("rule", JV::str(site.empty() ? rule : rule + "/" + site));
